@@ -136,6 +136,22 @@ def run(ctx):
                 continue
             ctx.evaluations += 1
             compare(ctx, sess, keys, x, rw, {'law': 'merge-after-' + k, 'lhs': markers.describe(sess, x), 'rhs': {'parse': tw}}, same=True)
+        # markers that agree inside a requires-python range simplify to one marker, whatever variable is at their root
+        SAME_INSIDE = [("implementation_version >= '3' and python_full_version >= '3.8'", "implementation_version >= '3'", ['I', S('3.8')], 'U'),
+                       ("implementation_version >= '3' or python_full_version >= '3.8'", "python_full_version >= '0'", ['I', S('3.8')], 'U'),
+                       ("implementation_version < '3' or python_full_version < '3.8'", "implementation_version < '3'", ['I', S('3.8')], 'U'),
+                       ("os_name == 'a' and python_full_version < '3.10'", "os_name == 'a'", 'U', ['E', S('3.10')]),
+                       ("(implementation_version == '3.9' and python_full_version >= '3.9') or extra == 'x'", "implementation_version == '3.9' or extra == 'x'", ['I', S('3.9')], ['E', S('3.12')])]
+        for t1, t2, lo, hi in SAME_INSIDE:
+            r1, r2 = sess.parse(t1)[0], sess.parse(t2)[0]
+            if r1 is None or r2 is None:
+                continue
+            x, y = sess.op('simppv', r1, lo, hi)[0], sess.op('simppv', r2, lo, hi)[0]
+            if x is None or y is None:
+                ctx.failure('an operation panicked while building an identity', {'op': 'simppv', 'operand': t1})
+                continue
+            ctx.evaluations += 1
+            compare(ctx, sess, keys, x, y, {'law': 'simplify-of-markers-equal-inside-the-range', 'lhs': markers.describe(sess, x), 'rhs': markers.describe(sess, y)}, same=True)
         for _ in range(350 if quick else 1500):
             try:
                 x, y, law = identities(ctx, sess, regs, fam)
